@@ -18,3 +18,12 @@ for m in r.mods.values():
     out[m.name + "#vars"] = sorted(names)
 json.dump(out, open(os.path.join(os.path.dirname(os.path.dirname(os.path.abspath(__file__))), "baseline_names.json"), "w"), indent=0)
 print(sum(len(v) for k, v in out.items() if "#" not in k), "functions,", sum(len(v) for k, v in out.items() if "#" in k), "module-level names")
+
+# shapes of the audited functions (see pyoakverif/shape.py)
+from pyoakverif.shape import lines_of
+shapes = {}
+for m in r.mods.values():
+    for f in r.functions([m]):
+        shapes[f.key] = lines_of(f.raw or f.node)
+json.dump(shapes, open(os.path.join(os.path.dirname(os.path.dirname(os.path.abspath(__file__))), "baseline_shapes.json"), "w"), indent=0)
+print(len(shapes), "function shapes")
